@@ -1261,4 +1261,234 @@ theorem inj_of_nodup_map {α β : Type} (f : α → β) (l : List α) (h : (l.ma
     · rw [eb] at e; exact absurd e (h.1 a ha')
     · exact ih h.2 a ha' b hb' e
 
+
+/-! ## Part 8: `str_to_pascal_case` -/
+
+theorem lowers_upper_facts : ∀ c ∈ lowers, cls (upperChar c) = .U ∧ lowerChar (upperChar c) = c ∧ upperChar c ≠ '_' ∧
+    upperChar (upperChar c) = upperChar c := by decide
+
+theorem cls_L_iff (c : Char) : cls c = .L ↔ c ∈ lowers ∧ c ∉ uppers := by
+  rcases cls_spec c with ⟨h, e⟩ | ⟨h, h2, e⟩ | ⟨h, h2, _, e⟩ | ⟨h, h2, _, e⟩ <;> simp [h, e, *]
+
+theorem lowers_not_uppers : ∀ c ∈ lowers, c ∉ uppers := by decide
+
+theorem upperChar_of_not_lower {c : Char} (h : c ∉ lowers) : upperChar c = c := by
+  simp [upperChar, h]
+
+theorem upperChar_ne_underscore {c : Char} (h : c ≠ '_') : upperChar c ≠ '_' := by
+  by_cases hl : c ∈ lowers
+  · exact (lowers_upper_facts c hl).2.2.1
+  · rw [upperChar_of_not_lower hl]; exact h
+
+theorem upperChar_idem (c : Char) : upperChar (upperChar c) = upperChar c := by
+  by_cases hl : c ∈ lowers
+  · exact (lowers_upper_facts c hl).2.2.2
+  · rw [upperChar_of_not_lower hl, upperChar_of_not_lower hl]
+
+theorem lowerChar_upperChar (c : Char) : lowerChar (upperChar c) = lowerChar c := by
+  by_cases hl : c ∈ lowers
+  · rw [(lowers_upper_facts c hl).2.1]
+    have : cls c ≠ .U := by
+      intro h; exact lowers_not_uppers c hl ((cls_U_iff c).mp h)
+    exact (lowerChar_of_not_U this).symm
+  · rw [upperChar_of_not_lower hl]
+
+theorem cls_upperChar (c : Char) : cls (upperChar c) = (match cls c with | .L => .U | k => k) := by
+  by_cases hl : c ∈ lowers
+  · have hL : cls c = .L := (cls_L_iff c).mpr ⟨hl, lowers_not_uppers c hl⟩
+    rw [hL, (lowers_upper_facts c hl).1]
+  · rw [upperChar_of_not_lower hl]
+    have : cls c ≠ .L := fun h => hl ((cls_L_iff c).mp h).1
+    cases hc : cls c <;> simp_all
+
+theorem splitU_ne_nil (s : Name) : splitU s ≠ [] := by
+  cases s with
+  | nil => simp [splitU]
+  | cons c cs =>
+    unfold splitU
+    by_cases h : c = '_'
+    · simp [h]
+    · simp only [h, if_false]; split <;> simp
+
+theorem pascal_underscore (cs : Name) : pascal ('_' :: cs) = pascal cs := by
+  simp [pascal, splitU, capitalize]
+
+theorem pascal_cons {c : Char} (cs : Name) (h : c ≠ '_') :
+    ∃ p ps, splitU cs = p :: ps ∧ pascal (c :: cs) = upperChar c :: (p ++ (ps.map capitalize).flatten) := by
+  cases hs : splitU cs with
+  | nil => exact absurd hs (splitU_ne_nil cs)
+  | cons p ps =>
+    refine ⟨p, ps, rfl, ?_⟩
+    simp [pascal, splitU, h, hs, capitalize]
+
+theorem pascal_lstripU (n : Name) : pascal (lstripU n) = pascal n := by
+  induction n with
+  | nil => rfl
+  | cons c cs ih =>
+    by_cases h : c = '_'
+    · subst h; rw [lstripU_underscore, pascal_underscore, ih]
+    · rw [lstripU_of_ne cs h]
+
+/-- no piece of `split("_")` contains an underscore -/
+theorem splitU_no_underscore (s : Name) : ∀ p ∈ splitU s, '_' ∉ p := by
+  induction s with
+  | nil => intro p hp; simp [splitU] at hp; subst hp; simp
+  | cons c cs ih =>
+    unfold splitU
+    by_cases h : c = '_'
+    · simp only [h, if_true]
+      intro p hp
+      rcases List.mem_cons.mp hp with rfl | hp
+      · simp
+      · exact ih p hp
+    · simp only [h, if_false]
+      cases hs : splitU cs with
+      | nil => exact absurd hs (splitU_ne_nil cs)
+      | cons p ps =>
+        intro q hq
+        rcases List.mem_cons.mp hq with rfl | hq
+        · intro hm
+          rcases List.mem_cons.mp hm with e | hm
+          · exact h e.symm
+          · exact ih p (by rw [hs]; simp) hm
+        · exact ih q (by rw [hs]; simp [hq])
+
+/-- the pieces, concatenated, are the name without its underscores -/
+theorem splitU_flatten (s : Name) : (splitU s).flatten = s.filter (· != '_') := by
+  induction s with
+  | nil => rfl
+  | cons c cs ih =>
+    unfold splitU
+    by_cases h : c = '_'
+    · simp [h, ih]
+    · simp only [h, if_false]
+      cases hs : splitU cs with
+      | nil => exact absurd hs (splitU_ne_nil cs)
+      | cons p ps =>
+        rw [hs] at ih
+        simp [h, ← ih]
+
+theorem capitalize_no_underscore {p : Name} (h : '_' ∉ p) : '_' ∉ capitalize p := by
+  cases p with
+  | nil => simp [capitalize]
+  | cons c cs =>
+    simp only [capitalize, List.mem_cons, not_or] at h ⊢
+    exact ⟨fun e => upperChar_ne_underscore (fun e' => h.1 e'.symm) e.symm, h.2⟩
+
+theorem pascal_no_underscore (s : Name) : '_' ∉ pascal s := by
+  unfold pascal
+  intro hm
+  obtain ⟨q, hq, hm⟩ := List.mem_flatten.mp hm
+  obtain ⟨p, hp, rfl⟩ := List.mem_map.mp hq
+  exact capitalize_no_underscore (splitU_no_underscore s p hp) hm
+
+theorem splitU_of_no_underscore {s : Name} (h : '_' ∉ s) : splitU s = [s] := by
+  induction s with
+  | nil => rfl
+  | cons c cs ih =>
+    simp only [List.mem_cons, not_or] at h
+    have hc : c ≠ '_' := fun e => h.1 e.symm
+    unfold splitU
+    simp [hc, ih h.2]
+
+theorem capitalize_idem (p : Name) : capitalize (capitalize p) = capitalize p := by
+  cases p <;> simp [capitalize, upperChar_idem]
+
+theorem capitalize_flatten_head (ps : List Name) :
+    capitalize ((ps.map capitalize).flatten) = (ps.map capitalize).flatten := by
+  induction ps with
+  | nil => rfl
+  | cons p ps ih =>
+    cases p with
+    | nil => simpa [capitalize] using ih
+    | cons c cs => simp [capitalize, upperChar_idem]
+
+/-- `str_to_pascal_case` is idempotent (every name) -/
+theorem pascal_idem (s : Name) : pascal (pascal s) = pascal s := by
+  have h := splitU_of_no_underscore (pascal_no_underscore s)
+  conv => lhs; unfold pascal
+  rw [h]
+  simp only [List.map_cons, List.map_nil, List.flatten_cons, List.flatten_nil, List.append_nil]
+  unfold pascal
+  exact capitalize_flatten_head _
+
+theorem lower_alnum_capitalize (p : Name) : lower (alnum (capitalize p)) = lower (alnum p) := by
+  cases p with
+  | nil => rfl
+  | cons c cs =>
+    have hcls : (cls (upperChar c) = .O) ↔ (cls c = .O) := by
+      rw [cls_upperChar]; cases cls c <;> simp
+    by_cases h : cls c = .O
+    · have h' := hcls.mpr h
+      simp [capitalize, alnum, h, h']
+    · have h' : cls (upperChar c) ≠ .O := fun e => h (hcls.mp e)
+      simp [capitalize, alnum, h, h', lower, lowerChar_upperChar]
+
+theorem lower_append (a b : Name) : lower (a ++ b) = lower a ++ lower b := by simp [lower]
+
+theorem lower_alnum_flatten_capitalize (ps : List Name) :
+    lower (alnum ((ps.map capitalize).flatten)) = lower (alnum ps.flatten) := by
+  induction ps with
+  | nil => rfl
+  | cons p ps ih =>
+    simp only [List.map_cons, List.flatten_cons, alnum_append, lower_append, ih, lower_alnum_capitalize]
+
+theorem alnum_filter_underscore (s : Name) : alnum (s.filter (· != '_')) = alnum s := by
+  induction s with
+  | nil => rfl
+  | cons c cs ih =>
+    by_cases h : c = '_'
+    · subst h; simp [alnum, cls_underscore] at ih ⊢; exact ih
+    · simp only [List.filter_cons, bne_iff_ne, ne_eq, h, not_false_eq_true, decide_true, if_true]
+      simp only [alnum, List.filter_cons] at ih ⊢
+      rw [ih]
+
+/-- `alnum_preserved` for `str_to_pascal_case`: letters and digits kept in order, up to case -/
+theorem lower_alnum_pascal (s : Name) : lower (alnum (pascal s)) = lower (alnum s) := by
+  unfold pascal
+  rw [lower_alnum_flatten_capitalize, splitU_flatten, alnum_filter_underscore]
+
+theorem word_pascal {s : Name} (h : Word s) : Word (pascal s) := by
+  intro c hc
+  unfold pascal at hc
+  obtain ⟨q, hq, hm⟩ := List.mem_flatten.mp hc
+  obtain ⟨p, hp, rfl⟩ := List.mem_map.mp hq
+  have hsub : ∀ x ∈ p, x ∈ s := by
+    intro x hx
+    have : x ∈ (splitU s).flatten := List.mem_flatten.mpr ⟨p, hp, hx⟩
+    rw [splitU_flatten] at this
+    exact (List.mem_filter.mp this).1
+  cases p with
+  | nil => simp [capitalize] at hm
+  | cons d ds =>
+    simp only [capitalize, List.mem_cons] at hm
+    rcases hm with rfl | hm
+    · rcases wordChar_cases (h d (hsub d (by simp))) with hd | hd
+      · apply isWordChar_of_cls; rw [cls_upperChar]; cases hcd : cls d <;> simp_all
+      · subst hd; exact absurd (by simp) (splitU_no_underscore s _ hp)
+    · exact h c (hsub c (by simp [hm]))
+
+/-- for a GraphQL name: the class name is an identifier iff there is a letter or digit and the first one is not a digit -/
+theorem pyIdent_pascal_iff {n : Name} (hg : GName n) :
+    PyIdent (pascal n) ↔ (allUnderscore n = false ∧ cls1 (lstripU n) ≠ .D) := by
+  have hw := gname_word hg
+  rw [← pascal_lstripU]
+  rcases lstripU_shape n with hl | ⟨c, r, hl, hc⟩
+  · have hu : allUnderscore n = true :=
+      (allUnderscore_iff n).mpr ⟨gname_ne_nil hg, (lstripU_eq_nil_iff n).mp hl⟩
+    rw [hl]; simp [hu, pascal, splitU, capitalize, PyIdent, GName]
+  · have hu : allUnderscore n = false := by
+      cases h : allUnderscore n
+      · rfl
+      · have := (lstripU_eq_nil_iff n).mpr ((allUnderscore_iff n).mp h).2
+        rw [hl] at this; exact absurd this (by simp)
+    rw [hl]
+    obtain ⟨p, ps, _, hp⟩ := pascal_cons r hc
+    have hwl : Word (c :: r) := by rw [← hl]; exact word_lstripU hw
+    have hwp : Word (pascal (c :: r)) := word_pascal hwl
+    rw [hp] at hwp ⊢
+    rw [pyIdent_of_word_ne hwp (upperChar_ne_underscore hc), cls_upperChar]
+    simp only [hu, cls1, true_and]
+    cases hcc : cls c <;> simp
+
 end Ariadne.Names
